@@ -126,20 +126,55 @@ def histories(ctx):
     return p, counts
 
 
+def replay(ctx, vec, shards):
+    """The histories are independent of each other: `shards` go test processes replay them side by side (history i in
+    process i mod shards).  Returns the merged record file and the merged result (counters summed, distinct cases
+    counted over all records)."""
+    import concurrent.futures as cf, time
+
+    def one(i):
+        time.sleep(3 * i)      # the processes share one overlay file: do not write it at the same moment
+        n0 = len(ctx.go_results)
+        out = ctx.go_test("cmd/restic", "^TestVerif_C40$", timeout=3000, out=os.path.join(ctx.work, "go_shard%d" % i),
+                          env={"VERIF_VECTORS": vec, "VERIF_SHARD": "%d/%d" % (i, shards)})
+        return out
+    with cf.ThreadPoolExecutor(max_workers=shards) as ex:
+        outs = list(ex.map(one, range(shards)))
+    recs = os.path.join(ctx.work, "recs_all.ndjson")
+    counters, samples, rule = {}, [], ""
+    cases = {}
+    with open(recs, "w") as fh:
+        for o in outs:
+            for ln in open(os.path.join(o, "recs.ndjson")):
+                fh.write(ln)
+                r = json.loads(ln)
+                key = (r["flags"], r["target"], r["big"], r["fault"], r["mode"], tuple(r["since"]), r["has_parent"])
+                cases[key] = cases.get(key, False) or r["has_parent"]
+            rj = json.load(open(os.path.join(o, "result.json")))
+            rule = rj.get("rule", rule)
+            samples += rj.get("samples") or []
+            for k, v in (rj.get("counters") or {}).items():
+                counters[k] = counters.get(k, 0) + v
+    return recs, {"counters": counters, "rule": rule, "samples": samples, "distinct_nontrivial": sum(1 for v in cases.values() if v),
+                  "distinct_cases": len(cases)}
+
+
 def run(ctx):
     import concurrent.futures as cf
     with cf.ThreadPoolExecutor(max_workers=1) as bg:
         vec, nhist = histories(ctx)
         fut = bg.submit(design, ctx)      # design runs do not depend on /repo; they run beside the replay
-        out = ctx.go_test("cmd/restic", "^TestVerif_C40$", timeout=3000, env={"VERIF_VECTORS": vec})
+        recs, res = replay(ctx, vec, ctx.pick(2, 4))
         des = fut.result()
-    recs = os.path.join(out, "recs.ndjson")
-    nb, badb, lines = ctx.check_records("Fn_IncrementalBind", recs, name="bind")
+    with cf.ThreadPoolExecutor(max_workers=2) as ex:
+        fb = ex.submit(ctx.check_records, "Fn_IncrementalBind", recs, name="bind")
+        fj = ex.submit(ctx.check_records, "Fn_Incremental", recs)
+        nb, badb, lines = fb.result()
+        n, bad, lines = fj.result()
     if badb:
         r = json.loads(lines[badb[0] - 1])
         raise verif.MachineryError("replay does not realise the model state at %d backup points, e.g. history %d point %d: model %s, reference backup %s"
                                    % (len(badb), r["hist"], r["point"], r["model_tree"], r["full_abs"]))
-    n, bad, lines = ctx.check_records("Fn_Incremental", recs)
     for i in bad[:200]:
         r = json.loads(lines[i - 1])
         if r["failed"]:
@@ -158,7 +193,6 @@ def run(ctx):
         ctx.violate(key, "history %d backup point %d (flags %s, target style %s, big files %s, fault %s %s, mode %s, edits since previous backup %s, parent %s): failed=%s omitted=%s (model %s), incremental tree %s, parentless tree %s, parent tree %s, loadable=%s, snapshot content %s, source %s %s (Fn_Incremental!RecOK false)"
                     % (r["hist"], r["point"], r["flags"], r["target"], r["big"], r["fault"], r["lost"], r["mode"], r["since"], r["has_parent"], r["failed"], r["omitted"], r["model_omitted"], r["inc_tree"],
                        r["full_tree"], r["parent_tree"], r["loadable"], r["inc_abs"], r["model_tree"], r["detail"]), r)
-    res = ctx.go_results[-1]
     cnt = res.get("counters", {})
     if cnt.get("premise_real_differs_from_model", 0) > max(2, n // 50):
         raise verif.MachineryError("the real file system left the model's premise at %d backup points" % cnt["premise_real_differs_from_model"])
